@@ -586,7 +586,8 @@ def c18(tier):
     parts = [("bytes/rel", "rel", "lexmc", ["--mode", "bytes"]), ("prefixes/rel", "rel", "lexmc", ["--mode", "prefixes", "--repo", vbuild.REPO]),
              ("bytes/dbg", "dbg", "lexmc", ["--mode", "bytes"]), ("prefixes/dbg", "dbg", "lexmc", ["--mode", "prefixes", "--repo", vbuild.REPO]),
              ("parse/dbg", "dbg", "lexmc", ["--mode", "parse"]), ("tokens/dbg", "dbg", "lexmc", ["--mode", "tokens"]),
-             ("json/rel", "rel", "lexmc", ["--mode", "json"]), ("json/dbg", "dbg", "lexmc", ["--mode", "json"])]
+             ("json/rel", "rel", "lexmc", ["--mode", "json"]), ("json/dbg", "dbg", "lexmc", ["--mode", "json"]),
+             ("jsonapi/rel", "rel", "lexmc", ["--mode", "jsonapi"]), ("jsonapi/dbg", "dbg", "lexmc", ["--mode", "jsonapi"])]
     res = run_parts(out, parts, tier)
     # (b) valid programs: every program family through read()+solve() in Release and Debug+ASan+UBSan;
     #     only abnormal outcomes (abort, assertion, sanitizer report, foreign exception, no answer) are judged here
@@ -616,7 +617,9 @@ def c18(tier):
                 "prefix (thorough; quick: every 7th beyond the first 600 bytes) of every file under examples/, through lexer+parser, in the "
                 "Release build and in the Debug+ASan+UBSan build; plus the valid token sequences and expression programs of C16 under the "
                 "sanitizers; plus EVERY byte string of length <=5 (thorough 6) over the 16-symbol JSON alphabet { } [ ] \" : , 1 - . e t n SP \\ a "
-                "through json::from_json + to_json (smt/json) in both builds. Allowed outcomes: accepted, or a std::exception, within 0.4 s (confirmed alone with 2 s); anything else "
+                "through json::from_json + to_json (smt/json) in both builds, and EVERY sequence of <=4 (thorough 5) operations on two json handles "
+                "(assignment from a temporary, from the other handle, from a member of itself or of the other handle, self-assignment, copy construction) "
+                "followed by printing both. Allowed outcomes: accepted, or a std::exception, within 0.4 s (confirmed alone with 2 s); anything else "
                 "(signal, std::terminate, sanitizer report, other exception, hang, >1 GB) is a violation. (b') ill-typed programs (lib/fam_ill.py): every binary operator on every ordered pair of "
                 "{bool, real, object, string} operands and every unary operator, as statement, in a disjunct and in a rule (thorough: as "
                 "initialiser too), through read()+solve() in Release and Debug+ASan: an answer or a reported error, never a signal. "
